@@ -42,6 +42,10 @@ func runC08(c *Ctx, idx int) {
 	promoted := 0
 	var promotedIDs []string
 	for _, m := range L.Media {
+		if m.PrevTok < 0 {
+			c.Inc("media_after_wordless_block(not observable, skipped)")
+			continue
+		}
 		present := strings.Contains(outHTML, m.ID)
 		prevKept := m.PrevTok > 0 && kept[fmt.Sprintf("w%dq", m.PrevTok)]
 		c.Inc("kind_" + m.Kind)
